@@ -1,5 +1,6 @@
 import Cbor.Lemmas.PubEncoders
 import Cbor.Spec.Float
+import Cbor.Spec.Decode
 /-!
 Half-precision floats: the generated `cbor_encode_half`, the hand-modelled `_cbor_decode_half`
 (`Ext.decodeHalfBits`), and the IEEE 754 value semantics of `Spec.Float`.
@@ -47,9 +48,13 @@ theorem strict_eq {α : Type} (n : Nat) (f : Nat → α) : strict n f = f n := b
   cases n <;> rfl
 
 /-- per-pattern check: (1) the decoded binary32 denotes exactly the value the binary16 pattern denotes,
-(2) re-encoding it gives the pattern back, or the canonical quiet NaN for a NaN -/
+(2) re-encoding it gives the pattern back, or the canonical quiet NaN for a NaN;
+also: the hand-written model of `_cbor_decode_half` agrees with the Spec's conversion, and the Spec's
+single→half conversion inverts it -/
 def halfCheck (h : Nat) : Bool :=
   strict (Ext.decodeHalfBits h).toNat fun f =>
+    f == Spec.halfToSingle h &&
+    Spec.Float.singleToHalf f == Spec.Float.canonHalf h &&
     Spec.Float.singleValue f == Spec.Float.halfValue h &&
     strict (halfRes (UInt32.ofNat f)).toNat fun r => r == Spec.Float.canonHalf h
 
